@@ -22,7 +22,7 @@ def evOp : EvOp → Op
 def evChain (S : Schema) (e : Ev) : DNode :=
   let leafD := dupRec e.node
   let leafD := addMeta leafD "operation" (Diff.bs (evOp e.op).str)
-  -- a create carries yang:key / value / position, a delete (repaired code, F63) yang:orig-key / orig-value / orig-position
+  -- a create carries yang:key / value / position, a delete (repaired code, F178) yang:orig-key / orig-value / orig-position
   let leafD := match e.anchor with
     | some (k, v) => addMeta leafD (if e.op == .delete then "orig-" ++ k else k) v
     | none => leafD
@@ -108,7 +108,7 @@ def mergeR (S : Schema) : (fuel : Nat) → (acc : List DNode) → (accInh : Op) 
                   else (setOp m .none).setMetas (eraseMeta ("orig-" ++ nm) (setOp m .none).metas)
                 let m2 := if m1.isTerm then (addMeta m1 "orig-default" (boolBytes m.flags.dflt)).setDflt src.flags.dflt else m1
                 some (m2.setKids (m2.kids.map fun c => if S.isKey c.sid then c else setOp c .delete))
-              | _, _ => none        -- the defective code (F63) records no original anchor: "Failed to find metadata"
+              | _, _ => none        -- the defective code (F178) records no original anchor: "Failed to find metadata"
             else
               let m1 :=
                 if S.isKind src.sid .leaf && m.val != src.val then
